@@ -7,7 +7,10 @@ use vstd::prelude::*;
 use std::os::unix::io::{AsFd, BorrowedFd, OwnedFd};
 use std::sync::Arc;
 use super::PingError;
+use crate::rustix::event::{eventfd, EventfdFlags};
+use crate::rustix::io::{read, write, Errno};
 use crate::{generic::Generic, generic::NoIoDrop, EventSource, Interest, Mode, Poll, PostAction, Readiness, Token, TokenFactory};
 //@ include ping_body
+//@ include ping_write_body
 } // mod eventfd
 } // mod ping
